@@ -123,12 +123,15 @@ def check_equal(smt2, params, spec_):
     vc = vcalg.VC(smt2)
     dom = vcalg.UFDom()
     ev = vcalg.Evaluator(vc, dom)
-    fa, fb = vc.final_versions(params["out_a"]), vc.final_versions(params["out_b"])
     n = params["n"]
-    if n and (len([i for i in fa if i < n]) != n or len([i for i in fb if i < n]) != n):
-        return {"status": "INCONCLUSIVE", "detail": "expected %d outputs in %s and %s, found %d / %d" % (n, params["out_a"], params["out_b"], len(fa), len(fb))}
-    ra = [ev.ev(fa[i]) for i in range(n)]
-    rb = [ev.ev(fb[i]) for i in range(n)]
+    ra, rb = [], []
+    for (oa, ob_) in [(params["out_a"], params["out_b"])] + [tuple(x) for x in params.get("more_pairs", [])]:
+        fa, fb = vc.final_versions(oa), vc.final_versions(ob_)
+        if n and (len([i for i in fa if i < n]) != n or len([i for i in fb if i < n]) != n):
+            return {"status": "INCONCLUSIVE", "detail": "expected %d outputs in %s and %s, found %d / %d" % (n, oa, ob_, len(fa), len(fb))}
+        ra += [ev.ev(fa[i]) for i in range(n)]
+        rb += [ev.ev(fb[i]) for i in range(n)]
+    n = len(ra)
     stats = {"vc_definitions": len(vc.defs), "uf_nodes": len(dom.nodes), "outputs_compared": n, "eval_s": round(time.time() - t0, 2)}
     diff = [i for i in range(n) if ra[i] != rb[i]]
     rnd = random.Random(11)
